@@ -1,6 +1,8 @@
 import McpModel.Base.Proto
 import McpModel.Resume.Model
 import McpModel.Resume.Monitor
+import McpModel.Resume.HoldMon
+import McpModel.Resume.BatchMon
 /-!
 Driver for E5 (C08, C10).
 
@@ -43,6 +45,10 @@ structure DMon where
   core   : Mon.MonS String String := { store := false, jsonMode := false }   -- the typed monitor core
   gone   : List String := []                                                -- sessions that were deleted / killed
   extra10 : Option String := none                                           -- op-level clause of the last record
+  hold   : Mon.HoldS String := {}                                           -- the typed core of the claim clauses (C08)
+  extra08 : Option String := none                                           -- claim clause of the last record
+  batch  : Mon.BatchS String := {}                                          -- the typed core of the batch clauses (C02)
+  extraB : Option String := none                                            -- batch clause of the last record
   inflight : List (String × Nat) := []                                      -- (session, id): calls accepted and not yet finished by their handler
 
 structure DState where
@@ -680,6 +686,61 @@ def parseObs (d : DState) (toks : List String) (impl : String) : Mon.Obs String 
         ({ sess := name, newProto := ((getSess d name).map (·.newProto)).getD false, rows := rows } : Mon.Snap String),
     purges := (parsePurges itoks).filterMap fun x => (parseT x.2.1).map fun n => (x.1, n, x.2.2) }
 
+/-- the implementation's observation of one record as the claim clauses see it: the GET's stream, the exchanges that were
+answered with a bare status, the handlers that returned, the snapshots of the real `streams` tables -/
+def parseHObs (toks : List String) (impl : String) : Mon.HObs String :=
+  let itoks := words impl
+  let (sess, origin) := originOf toks
+  let plain := fun (t : String) => t.startsWith "x" && !t.contains '+' && !t.contains '!'
+  { sess := sess, get := origin.stream,
+    codes := itoks.filterMap fun t =>
+      if plain t then
+        match t.splitOn ":" with
+        | [xk, kind] => kind.toNat?.map fun code => (parseX xk, code)
+        | _ => none
+      else none,
+    ends := itoks.filterMap fun t =>
+      if plain t && t.endsWith "." && !t.contains ':' then some (parseX ((t.splitOn ".").headD "")) else none,
+    snaps := itoks.filterMap fun t => if (t.splitOn "[?]").length > 1 then none else parseSnap t }
+
+/-- snapshot `S<name>[t2:x3:o:4:1,2:s[:L];…|1>t2,2>t2]D?` with the outstanding requests and `requestStreams` -/
+def parseBSnap (tok : String) : Option (Mon.BSnap String) :=
+  if !tok.startsWith "S" || (tok.splitOn "[?]").length > 1 then none else
+  match tok.splitOn "[" with
+  | [nm, rest] =>
+    let name := (nm.drop 1).toString
+    let done := rest.endsWith "D"
+    match ((rest.splitOn "]").headD "").splitOn "|" with
+    | [rowsTxt, regsTxt] =>
+      let rows := (rowsTxt.splitOn ";").filterMap fun r =>
+        match r.splitOn ":" with
+        | t :: att :: op :: _ :: reqs :: js :: _ =>
+          (parseT t).map fun n =>
+            ({ t := n, att := if att.startsWith "x" then some (parseX att) else none, opn := op == "o",
+               sse := js == "s", reqs := (reqs.splitOn ",").filterMap String.toNat? } : Mon.BRow)
+        | _ => none
+      let regs := (regsTxt.splitOn ",").filterMap fun x =>
+        match x.splitOn ">" with
+        | [r, t] => match r.toNat?, parseT t with
+          | some rn, some tn => some (rn, tn)
+          | _, _ => none
+        | _ => none
+      some { sess := name, done := done, rows := rows, regs := regs }
+    | _ => none
+  | _ => none
+
+/-- the implementation's observation of one record as the batch clauses (C02) see it -/
+def parseBObs (toks : List String) (impl : String) : Mon.BObs String String :=
+  let itoks := words impl
+  let plain := fun (t : String) => t.startsWith "x" && !t.contains '+' && !t.contains '!'
+  { op := match toks with
+      | ["resp", n, r, x] => .resp n (r.toNat?.getD 0) (".".intercalate ["R", r, n, r, x])
+      | _ => .other,
+    sent := itoks.filterMap parseSent,
+    ends := itoks.filterMap fun t =>
+      if plain t && t.endsWith "." && !t.contains ':' then some (parseX ((t.splitOn ".").headD "")) else none,
+    snaps := itoks.filterMap parseBSnap }
+
 def DMon.init (store jsonMode : Bool) : DMon := { core := Mon.init store jsonMode }
 
 /-- Evaluate the monitors on one record of the implementation: the typed core, plus two checks that relate
@@ -687,7 +748,10 @@ the *operation* to the observation (a response the handler produced must not van
 def DMon.onRecord (m : DMon) (d : DState) (toks : List String) (impl : String) : DMon × Mon.Viol :=
   let itoks := words impl
   let r := Mon.step provOf m.core (parseObs d toks impl)
-  let m : DMon := { m with core := r.1 }
+  let hr := Mon.holdStep m.hold (parseHObs toks impl)
+  let br := Mon.batchStep m.batch (parseBObs toks impl)
+  let m : DMon := { m with core := r.1, hold := hr.1, extra08 := hr.2.map Mon.ClauseH.text,
+                           batch := br.1, extraB := br.2.map Mon.ClauseB.text }
   let (m, extra) : DMon × Option String := match toks with
     | "init" :: _ :: _ =>
       let id := (kvGet toks "id").getD "0"
@@ -765,11 +829,12 @@ def engine (prop : String) : Engine DState where
         let model := body ++ o.tail
         let (m, v) := d.mon.onRecord dn toks impl
         -- first violated clause of the requested property: typed core, then the op-level clause
-        let v08 := v.v08.map Mon.Clause08.text
+        let v08 := (v.v08.map Mon.Clause08.text).orElse fun _ => m.extra08
         let ext := fun (p : String) => m.extra10.filter (·.startsWith p)
         let v10 := (v.v10.map Mon.Clause10.text).orElse fun _ => ext "C10"
-        let mviol := if prop == "C08" then v08 else if prop == "C10" then v10 else if prop == "C02" then ext "C02"
-          else (v10.orElse fun _ => v08).orElse fun _ => ext "C02"
+        let v02 := (ext "C02").orElse fun _ => m.extraB
+        let mviol := if prop == "C08" then v08 else if prop == "C10" then v10 else if prop == "C02" then v02
+          else (v10.orElse fun _ => v08).orElse fun _ => v02
         let crashed := impl.startsWith "panic" || (words impl).contains "w=panic" || (impl.splitOn "PANIC").length > 1
         let viol := if crashed then some ((if prop == "" then "C08" else prop) ++ ": the server panicked while handling this operation")
                     else mviol
